@@ -67,11 +67,13 @@ ASSUMPTIONS = ["graphs are simple undirected networkx Graphs without self-loops 
                "evaluated by the model on every case: wfb, first flag of the observable; C06_input_premise_monitor)",
                "hcount, when present, is a non-negative int",
                "attribute values are JSON scalars compared with Python ==",
-               "strict_cc_count=True with more host than pattern components is the documented guard (comp: [], bt: exhaustive) - "
-               "outside the property text; stated as the first case of C06_comp_spec, pinned by the correspondence",
+               "strict_cc_count=True with more host than pattern components is the documented guard (comp: [], bt: exhaustive): a "
+               "deviation from the property text (C06_comp_strict_refuted, known finding C06:comp-strict-cc-guard); there the oracle "
+               "accepts [] or the separating set, nothing else; stated as the first case of C06_comp_spec, pinned by the correspondence",
                "a per-component embedding list longer than the threshold empties the component-aware result even when the combined "
                "result would not be past the threshold (docstring: 'enumeration guard'); second alternative of C06_limits, witness "
-               "C06_limits_guard_reachable; accepted by the oracle"]
+               "C06_limits_guard_reachable / C06_limits_comp_refuted, known finding C06:per-component-threshold-guard; accepted by the "
+               "oracle with exactly that condition (recomputed by brute force)"]
 TESTED_NOT_PROVED = ["inputs are not modified (pure model; the adapter deep-compares host and pattern before/after every call)",
                      "absence of state between calls in the Python code (class/instance/module level): histories on one engine object and "
                      "shared graph objects with in-place edits and caller-mutated results; the MODEL of a history is the state machine "
@@ -80,7 +82,7 @@ TESTED_NOT_PROVED = ["inputs are not modified (pure model; the adapter deep-comp
                      "call spellings that do not reach the model (instance vs class, host/pattern by keyword, tuples for attribute lists)",
                      "the VF2 contract for inputs that were not run (premise of the theorems; discharged inside Coq for every case that "
                      "is run, see TRUSTED_BASE)"]
-LEVEL_TEXT = ("Machine-checked proof (Coq, all inputs, 52 theorems closed under the global context) over an executable, "
+LEVEL_TEXT = ("Machine-checked proof (Coq, all inputs, 57 theorems closed under the global context) over an executable, "
               "structure-following model of SubgraphSearchEngine.find_subgraph_mappings parameterised by the VF2 enumeration: "
               "ALL = exactly the label-preserving monomorphisms, duplicate-free (under the VF2 contract, which the verified enumerator "
               "provably meets); COMPONENT = exactly those sending different pattern components into different host components, duplicate-free, all of "
@@ -89,7 +91,13 @@ LEVEL_TEXT = ("Machine-checked proof (Coq, all inputs, 52 theorems closed under 
               "or (comp/bt) the per-component enumeration guard fired; the pre-filter skips only when there is provably no match or its documented estimate guard fired; the call interface (strategy spellings, option defaults) is modelled and specified; the attribute dictionaries, the selections node_attrs / edge_attrs and the two match closures are modelled (the exhaustive strategy is exact in terms of the caller's dictionaries; a selection is a set of names; a larger selection only removes matches; the component-aware and fallback clauses are stated on the caller's graphs as well); the VF2 calls of every search (host part, pattern part, number of monomorphisms pulled) are modelled and compared (closed form of the consumption; never more than threshold + 1 per call; the per-component lists are determined by the trace); histories are a state machine over the caller's two objects (in-place edits with networkx semantics, edits of non-selected attributes provably invisible); results are invariant under renaming of node ids and re-ordering of the node / edge lists.  Model tied to the code on every run by comparing result "
               "multisets/lists, component partitions and pre-filter verdicts on exhaustive small scopes and random populations.")
 LEVEL_NOTE = ("Trusted: Coq kernel, the model, the harness encoder, the VF2 contract (monitored per case; networkx itself is not "
-              "verified).  Not proved: input immutability of the Python code (monitored).")
+              "verified).  Not proved: input immutability of the Python code (monitored).  Two clauses of the property text are FALSE "
+              "for the code as it is (documented behaviour, kept): 'component-aware = the separating monomorphisms' fails under the "
+              "default strict_cc_count=True when the host has more components than the pattern (C06_comp_strict_refuted; the clause "
+              "is proved for strict_cc_count=False and for hosts without more components), and 'limits only truncate / empty past "
+              "the threshold' fails for comp/bt when one pattern component alone has more than threshold embeddings "
+              "(C06_limits_comp_refuted; proved without exception for the exhaustive strategy).  Both are known findings with "
+              "witnesses in corpus/regress/C06/known_deviations.json.")
 TECHNIQUE = "Coq 8.16 proof about an executable Gallina model + per-run correspondence (vm_compute digest vs implementation) + independent brute-force property oracle"
 DESIGN_REF = "DESIGN.md section 5 C06, Appendix A.1; notes/C06.md"
 
@@ -127,6 +135,8 @@ def _call(H, P, case, cfg, style="kw", engine=None):
     f = (engine or SSE()).find_subgraph_mappings if style == "instance" or engine is not None else SSE.find_subgraph_mappings
     if style == "hostkw":
         return f(pattern=P, host=H, **kw)
+    if style == "sameobj":          # host and pattern are ONE object (the case has equal values on both sides)
+        return f(H, H, **kw)
     return f(H, P, **kw)
 
 
@@ -149,9 +159,17 @@ def _snapshot(g):
 
 # ------------------------------------------------------------------ implementation adapter
 
+def _srt(xs):
+    """Canonical order of node ids (ints in the model domain; strings / mixed ids in the oracle-only population)."""
+    try:
+        return sorted(xs)
+    except TypeError:
+        return sorted(xs, key=repr)
+
+
 def _comps_obs(g):
     import networkx as nx
-    return S([S(sorted(c)) for c in nx.connected_components(g)])
+    return S([S(_srt(c)) for c in nx.connected_components(g)])
 
 
 def impl(case):
@@ -348,12 +366,12 @@ class record_vf2:
             if k in seen:
                 continue
             seen.add(k)
-            out.append([sorted(hn), sorted(pn), [sorted([p, h] for h, p in iso.items()) for iso in full]])
+            out.append([_srt(hn), _srt(pn), [_srt([p, h] for h, p in iso.items()) for iso in full]])
         return out
 
     def trace(self):
         """The VF2 calls made since the last clear(), in order: [host part, pattern part, items pulled]."""
-        return tuple((S(sorted(hn)), S(sorted(pn)), k) for hn, pn, _, k in self.rec)
+        return tuple((S(_srt(hn)), S(_srt(pn)), k) for hn, pn, _, k in self.rec)
 
     def clear(self):
         del self.rec[:]
@@ -437,9 +455,16 @@ def _coq_cfg(cfg):
     return "(Cfg %s %s %s %s %s)" % (cN(STRATS[st]), cN(mr or 0), cN(_thr(thr)), cbool(strict), cbool(pref))
 
 
+def _ids_in_domain(*graphs):
+    """Node ids of the model are natural numbers; anything else (strings, negative numbers) is judged by the oracle only."""
+    return all(isinstance(n, int) and not isinstance(n, bool) and n >= 0 for g in graphs for n, _ in g["nodes"])
+
+
 def _coq_pair(host, pattern, na, ea):
     """-> (selection of node names, selection of edge names, host, pattern) as Gallina literals, or None."""
     names, codes = _Names(), _Codes()
+    if not _ids_in_domain(host, pattern):
+        return None
     try:
         h = _coq_rgraph(host, names, codes)
         p = _coq_rgraph(pattern, names, codes)
@@ -485,7 +510,7 @@ def _coq_edit(e, names, codes):
 def _coq_history(case):
     """The script itself goes to the model (initial objects + edits + searches): model/C06_Hist.v carries the state."""
     names, codes = _Names(), _Codes()
-    if any(u == v for u, v, _ in case["host"]["edges"] + case["pattern"]["edges"]):
+    if any(u == v for u, v, _ in case["host"]["edges"] + case["pattern"]["edges"]) or not _ids_in_domain(case["host"], case["pattern"]):
         return None
     try:
         h = _coq_rgraph(case["host"], names, codes)
@@ -744,6 +769,7 @@ def oracle(case):
     def bad(clause, detail):
         fails.append(dict(clause=clause, detail=detail))
 
+    known_dev = case.get("deviation") if case.get("kind") == "known-deviation" else None
     snapH, snapP = _snapshot(H), _snapshot(P)
     B = _brute(H, P, na, ea)
     Bset = {_fs(m) for m in B}
@@ -822,6 +848,17 @@ def oracle(case):
             want, name = Bset, "fallback(exhaustive, strict_cc_count guard)"
         else:
             want, name = (SEPset if SEPset else Bset), "fallback"
+        if guard_region:
+            # the documented parameter gives [] here ([{}] for the empty pattern); the property text would give the separating
+            # set.  Either is accepted, nothing else (theorem C06_comp_strict_refuted; known finding C06:comp-strict-cc-guard).
+            if U and (Uset != SEPset or len(U) != len(SEPset)):
+                bad("strict-guard", "%s: more host than pattern components with strict_cc_count: expected [] (documented) or the %d "
+                    "separating maps (property text), got %d maps" % (tag, len(SEPset), len(U)))
+                continue
+            if known_dev == "comp-strict-cc-guard" and not U and SEPset:
+                fails.append(dict(clause="comp-strict-cc-guard", key="C06:comp-strict-cc-guard",
+                                  detail="%s: %d separating monomorphisms exist, the component-aware search returns [] because the host "
+                                         "has %d components and the pattern %d (strict_cc_count)" % (tag, len(SEPset), hcc, pcc)))
         if not guard_region:
             if Uset != want or len(U) != len(want):
                 bad("exact-" + name, "%s: unlimited result has %d maps (%d distinct), the %s set has %d; missing %r extra %r"
@@ -840,6 +877,10 @@ def oracle(case):
             ok.append([] if st == "comp" else E(unlimited("all", strict)))
         if pref and _estimate_guard(H, P, na, T):
             ok.append([])
+        if (known_dev == "per-component-threshold-guard" and st != "all" and R == [] and E(U) != [] and R in ok):
+            fails.append(dict(clause="per-component-threshold-guard", key="C06:per-component-threshold-guard",
+                              detail="%s: the unlimited result has %d maps (within the threshold %d) but [] is returned: one pattern "
+                                     "component has more than %d embeddings (per-component counts %r)" % (tag, len(U), T, T, percc_counts())))
         if R not in ok:
             limited = bool(mr) or thr is not None
             bad("limits-only-truncate" if limited else ("prefilter-neutral" if pref else "deterministic"),
@@ -925,9 +966,48 @@ def distribution(cases, obss):
     return d
 
 
+def _shrink_history(case):
+    """Shorter failing script: cut everything after the first failing search, then drop earlier SEARCH steps (and result
+    mutations) one at a time while the oracle still fails.  Edits stay (they define the state)."""
+    def fails(c):
+        try:
+            return bool(_oracle_history(c))
+        except Exception:
+            return False
+
+    def without(c, si):
+        """The case without step number si (a search: its snapshot goes too; a result mutation: nothing else changes)."""
+        k = sum(1 for st in c["steps"][:si] if st["op"] == "search")
+        snaps = c["snaps"][:k] + c["snaps"][k + 1:] if c["steps"][si]["op"] == "search" else c["snaps"]
+        return dict(c, steps=c["steps"][:si] + c["steps"][si + 1:], snaps=snaps)
+    if not fails(case):
+        return case
+    cur = dict(case)
+    # shortest failing prefix (ending with a search)
+    idx = [i for i, st in enumerate(cur["steps"]) if st["op"] == "search"]
+    for n, i in enumerate(idx):
+        c = dict(cur, steps=cur["steps"][:i + 1], snaps=cur["snaps"][:n + 1])
+        if fails(c):
+            cur = c
+            break
+    changed = True
+    while changed:
+        changed = False
+        for si, st in enumerate(cur["steps"][:-1]):
+            if st["op"] in ("search", "mutate_result"):
+                c = without(cur, si)
+                if any(x["op"] == "search" for x in c["steps"]) and fails(c):
+                    cur, changed = c, True
+                    break
+    cur["name"] = case.get("name", "") + "(shrunk)"
+    return cur
+
+
 def shrink(case, fl):
     """Greedy: drop configurations, then host/pattern nodes and edges, while the oracle still fails."""
-    if case.get("kind") in ("history", "api"):
+    if case.get("kind") == "history":
+        return _shrink_history(case)
+    if case.get("kind") == "api":
         return case
 
     def fails(c):
@@ -1337,6 +1417,29 @@ def _gen_manycomp(rng, n):
     return out
 
 
+def _gen_oddids(rng, n):
+    """(a) node ids that are not natural numbers - strings, negative numbers, a mix - are outside the model domain
+    (coq_case gives None) and judged by the oracle only: a search that used ids as array indices, sorted them, or compared
+    them with numbers would show here; (b) host and pattern passed as ONE object (equal values on both sides)."""
+    out = []
+    cfgs = [["all", None, None, False, False], ["comp", None, None, False, False], ["comp", None, None, True, True],
+            ["bt", None, None, True, False], ["bt", 2, 3, False, False]]
+    while len(out) < n:
+        h, p, na, ea = _rand_pair(rng, hmax=6, pmax=3)
+        mode = len(out) % 4
+        if mode == 3:
+            out.append(dict(kind="sameobj", host=h, pattern={"nodes": [[u, dict(a)] for u, a in h["nodes"]],
+                                                            "edges": [[u, v, dict(a)] for u, v, a in h["edges"]]},
+                            na=na, ea=ea, cfgs=[c for c in cfgs if c[1] is None], styles=["sameobj"] * 4, vf2=None))
+            continue
+        ren = {0: lambda u: "a%d" % u, 1: lambda u: -u - 1, 2: lambda u: ("n%d" % u) if u % 2 else u * 1000}[mode]
+        hh = G.relabel(h, {u: ren(u) for u, _ in h["nodes"]})
+        pren = {0: lambda u: "p%d" % u, 1: lambda u: -u - 50, 2: lambda u: ("n%d" % u) if u % 2 else u}[mode]
+        pp = G.relabel(p, {u: pren(u) for u, _ in p["nodes"]})
+        out.append(dict(kind="oddids", host=hh, pattern=pp, na=na, ea=ea, cfgs=[c for c in cfgs if c[1] is None], vf2=None))
+    return out
+
+
 def _rand_edit(rng, g):
     """An in-place edit of the JSON graph `g` (returned as an edit command); half of them keep node and edge counts."""
     ids = [n for n, _ in g["nodes"]]
@@ -1735,7 +1838,28 @@ def gen_cases(tier, rng):
             cases.append(c)
             k += 1
     # ---- round 5: two-digit component counts / pattern sizes
-    cases += _gen_manycomp(rng, 16 if q else 200)
+    cases += _gen_manycomp(rng, 16 if q else 100)
     # ---- round 4/5: targeted histories (per-object memo classes; generated last so that the populations above are unchanged)
     cases += _gen_history_targeted(rng, 120 if q else 1600)
-    return cases
+    # ---- round 5: ids outside the model domain (oracle only), host and pattern as one object
+    cases += _gen_oddids(rng, 24 if q else 400)
+    return _spread(cases, ("manycomp", "bigpattern", "big100"))
+
+
+def _spread(cases, heavy_kinds):
+    """The few cases that cost seconds in the model (hundreds of monomorphisms, enumerated once more for the trace) are
+    distributed evenly over the list, so that no 250-case shard collects them all (one shard of 200 manycomp cases cost 14
+    CPU-minutes in the thorough run of 2026-09-29 and held the whole run back)."""
+    heavy = [c for c in cases if c.get("kind") in heavy_kinds]
+    light = [c for c in cases if c.get("kind") not in heavy_kinds]
+    if not heavy or not light:
+        return cases
+    step = len(light) / float(len(heavy))
+    out, k = [], 0
+    for i, c in enumerate(light):
+        while k < len(heavy) and i >= (k + 0.5) * step:
+            out.append(heavy[k])
+            k += 1
+        out.append(c)
+    out += heavy[k:]
+    return out
